@@ -855,6 +855,7 @@ class CaseRun:
     final_state: str
     cfg: LoopCfg
     script: list
+    post_probe: str | None = None    # C08's observation: after recovery_timeout_s, is the next call admitted?
 
 
 def run_case(case_id: str, cfg: LoopCfg, script: list, oracle, wall_seed: int = 0,
@@ -890,4 +891,20 @@ def run_case(case_id: str, cfg: LoopCfg, script: list, oracle, wall_seed: int = 
     lines.append("end")
     final = (f"now={env.clock.ticks} budget={budget_state_tok(built.budget)} "
              f"breaker={breaker_state_tok(built.breaker)}")
-    return CaseRun("\n".join(lines) + "\n", results, env.exchanges, final, cfg, script)
+    post = None
+    if built.breaker is not None and not (cfg.init_breaker or {}).get("probe"):
+        # C08 observe_at: no call is outstanding now; once recovery_timeout_s has elapsed the next call
+        # must be admitted (done on a throw-away copy of the breaker's state, after `final` was taken)
+        import copy
+        from redress.circuit import CircuitBreaker as _CB
+        b2 = copy.copy(built.breaker)
+        b2.__class__ = _CB
+        b2._failures = copy.copy(built.breaker._failures)
+        b2._class_failures = {k: copy.copy(v) for k, v in built.breaker._class_failures.items()}
+        import threading
+        b2._lock = threading.Lock()
+        t = env.clock.ticks + cfg.breaker["recovery"]
+        b2._clock = lambda: t * TICK
+        d = b2.allow()
+        post = "admitted" if d.allowed else f"rejected:{d.state.value}"
+    return CaseRun("\n".join(lines) + "\n", results, env.exchanges, final, cfg, script, post)
